@@ -11,6 +11,7 @@ import ArcSwapModel.Tie.ListNewHelping
 import ArcSwapModel.Tie.ListHelp
 import ArcSwapModel.Tie.DebtPayAll
 import ArcSwapModel.Tie.Sites
+import ArcSwapModel.Inv.Named
 
 /-!
 # C11 — thread churn: bookkeeping is reused, never shared
@@ -138,5 +139,17 @@ theorem C11_list_acyclic_and_bounded {st : State} {L : List Nat} (h : ListInv st
   ⟨chainFrom_nodup h.1, h.length_le⟩
 
 example : (State.initial {} (fun _ => [])).sh.nNodes = 0 := rfl
+
+/-- **every thread's node is linked**: in every reachable state the node a thread holds is on the
+    list — so a writer's walk, which follows the list from its head, comes past it -/
+theorem C11_thread_node_on_list {st : State} (h : Reachable st) :
+    ∃ L, ListInv st L ∧ ∀ t n, (st.th t).loc.node = some n → n ∈ L :=
+  thread_node_on_list h
+
+/-- **a debt slot that names a value belongs to a linked node**: in every reachable state -/
+theorem C11_named_slot_on_list {st : State} (h : Reachable st) :
+    ∃ L, ListInv st L ∧ ∀ n i, (st.sh.nodes n).fast i ≠ .none → n ∈ L := by
+  obtain ⟨L, hL⟩ := NamedLinked.reachable h
+  exact ⟨L, hL.linked.list, hL.named⟩
 
 end C11
